@@ -79,7 +79,7 @@ static const struct enc ENC[] = {
 #else
 #define K_BASE VC_USER
 #endif
-enum { K_ENCCALLS = K_BASE, K_DECCALLS, K_CTRL_UNDECODABLE, K_STRING_PAYLOAD, K_BUFSIZES, K_REFUSED_SMALL, K_CLAIMED, K_NAN, K_HALF, K_SINGLE, K_DOUBLE, K_TOTALITY, K_LOADS, K_NAN_PAYLOAD_KEPT, K_NAN_PAYLOAD_LOST };
+enum { K_ENCCALLS = K_BASE, K_DECCALLS, K_CTRL_UNDECODABLE, K_STRING_PAYLOAD, K_BUFSIZES, K_REFUSED_SMALL, K_CLAIMED, K_NAN, K_HALF, K_SINGLE, K_DOUBLE, K_TOTALITY, K_LOADS, K_NAN_PAYLOAD_KEPT, K_NAN_PAYLOAD_LOST, K_DUPS };
 static vf_sb sb;
 
 /* expected RFC bytes for encoder e applied to raw value v (for floats: v = bit pattern of the argument;
@@ -415,6 +415,17 @@ static void via_item(const uint8_t* bytes, size_t n, const uint8_t* expect_out, 
       vf_hex(x, sizeof x, expect_out, n);
       vf_fail(NULL, "serializing the decoded float gives %s, expected %s", g, x);
     }
+    /* the item holds its value itself: a duplicate that is given another value and released must not change what the item encodes to */
+    cbor_item_t* c = cbor_copy(it);
+    if (!c) vf_fail(NULL, "cbor_copy of a float item failed");
+    else {
+      if (width == 64) cbor_set_float8(c, -2.5); else if (width == 32) cbor_set_float4(c, -2.5f); else cbor_set_float2(c, -2.5f);
+      cbor_decref(&c);
+      memset(o, 0xA5, n);
+      w = cbor_serialize(it, o, n);
+      vf_cnt(K_DUPS, 1);
+      if (w != n || memcmp(o, expect_out, n)) vf_fail(NULL, "after a copy of the item was set to -2.5 and released, the item itself no longer encodes to its original bytes");
+    }
   }
   cbor_decref(&it);
   if (va.live) {
@@ -570,7 +581,7 @@ struct vf_check vf_the_check = {
                     "the host is IEEE-754 little-endian x86-64"},
     .counters = {[VC_EVAL] = "patterns_judged", [VC_DISTINCT] = "distinct_patterns", [VC_TRANS] = "stream_decodes", [VC_TRACES] = "executed_on_implementation",
                  [K_HALF] = "half_patterns", [K_SINGLE] = "single_patterns", [K_DOUBLE] = "double_patterns", [K_TOTALITY] = "encode_half_totality_calls",
-                 [K_LOADS] = "item_level_round_trips", [K_NAN] = "NaN_patterns",
+                 [K_LOADS] = "item_level_round_trips", [K_DUPS] = "items_re_encoded_after_a_duplicate_was_changed_and_released", [K_NAN] = "NaN_patterns",
                  [K_NAN_PAYLOAD_KEPT] = "recorded_not_judged_single_double_NaNs_decoded_with_payload_and_sign_intact", [K_NAN_PAYLOAD_LOST] = "recorded_not_judged_single_double_NaNs_decoded_to_another_NaN"},
     .init = init15, .units = units15, .unit = unit15, .replay = replay15};
 #endif
